@@ -136,7 +136,15 @@ def rerun(ids, tier, main_only=False):
             res["dir"] = sid
             show(res)
             rows.append(res)
-            if "checks" in res:
+            if "checks" in res and not res.get("valid"):
+                # the change applies but its demo no longer fails on the current tree: a later fix in /repo made the
+                # changed code unreachable or harmless; the recorded detection (at adoption time) is kept
+                meta["superseded"] = (f"no longer manifests on /repo {res['repo_head']}: the change applies and the tests stay "
+                                      "green, but its own demo passes with it (neutralised by a later fix: commit)")
+                with open(os.path.join(src, "meta.json"), "w") as f:
+                    json.dump(meta, f, indent=1)
+            elif "checks" in res:
+                meta.pop("superseded", None)
                 meta.setdefault("checks_run", {}).update({p: {"tier": tier, "caught": c["caught"],
                                                               "first_violation": (c["first"] or [None])[0]}
                                                           for p, c in res["checks"].items()})
